@@ -111,6 +111,38 @@ func TestC07(t *testing.T) {
 			}
 		}
 	}
+	// one-element tensors (shapes (1), (1,1), (1,1,1)): the kernels treat them specially
+	for _, op := range []string{"Add", "Sub", "Mul", "Div"} {
+		for _, d := range []DT{dtInt32, dtF64, dtUint8} {
+			for _, mode := range ewModes {
+				op, d, mode := op, d, mode
+				cell(t, "C07", "EW", "one-element/"+op+"/"+d.Name+"/"+mode, nCases(6, 60), func(rt *rapid.T) Case {
+					form := rapid.SampledFrom([]string{"TT", "TS", "ST"}).Draw(rt, "form")
+					via := rapid.SampledFrom([]string{"pkg", "method"}).Draw(rt, "via")
+					shape := rapid.SampledFrom([][]int{{1}, {1, 1}, {1, 1, 1}}).Draw(rt, "shape")
+					c := &EWCase{Prop: "C07", Fam: "arith", Op: op, DT: d.Name, Form: form, Via: via, Mode: "safe"}
+					c.A = genOpnd(rt, shape, "contig", 1, 9, 0, "a")
+					if form == "TT" {
+						b := genOpnd(rt, shape, "contig", 1, 9, 0, "b")
+						c.B = &b
+					} else {
+						c.Scalar = rapid.Int64Range(1, 9).Draw(rt, "s")
+					}
+					c = withMode(rt, c, mode, d)
+					if c.Dst != nil {
+						c.Dst.L = Layout{Root: "rm"}
+					}
+					if inF17(c) {
+						rec.Class("excluded:F17")
+						c.Mode = "reuse"
+						c.Dst = genDst(rt, shape, d, "dst3")
+						c.Dst.L = Layout{Root: "rm"}
+					}
+					return c
+				})
+			}
+		}
+	}
 	for _, op := range cmpOps {
 		for _, d := range c07DTs() {
 			if !opSupports("cmp", op, d) {
@@ -247,3 +279,6 @@ func TestC12(t *testing.T) {
 	}
 	c12ApplyCells(t)
 }
+
+// inF17 is the region of known finding F17: one-element operands.
+func inF17(c *EWCase) bool { return c.Mode == "incr" && prod(c.A.Shape) == 1 }
